@@ -437,7 +437,10 @@ fn fnv(s: &str) -> u64 {
 
 pub struct Literals;
 
-const ESCAPES: [(&str, &str); 11] = [
+const ESCAPES: [(&str, &str); 14] = [
+    ("\\u0000", "\u{0}"),
+    ("\\ud83d\\ude00", "😀"),
+    ("\\u007f", "\u{7f}"),
     ("\\\"", "\""),
     ("\\\\", "\\"),
     ("\\/", "/"),
